@@ -511,7 +511,7 @@ class Totality:
         if kind == "argelem":
             arr = st.arr.get(l)
             if arr is not None and 0 <= pk[2] < len(arr):
-                return arr[pk[2]]
+                return ai.get(st, ("elem", l, pk[2]))
             return None
         if kind == "arglen":
             lk = ai.len_key(l, st)
@@ -1185,7 +1185,7 @@ class Totality:
         if k is not None and len_key is not None:
             if k == len_key:
                 return True
-            if len_key in st.ub.get(k, ()) or len_key in st.le.get(k, ()):
+            if len_key in a.uppers(st, k)[0]:
                 return True
         return False
 
@@ -1301,7 +1301,7 @@ class Totality:
                 if s_iv is not None and e_iv is not None and s_iv[1] <= e_iv[0]:
                     return "D-len: start <= end <= len"
                 ks, ke = a.operand_key(st, s_op), a.operand_key(st, e_op)
-                if ks is not None and ke is not None and (ks == ke or ke in st.ub.get(ks, ())):
+                if ks is not None and ke is not None and (ks == ke or ke in a.uppers(st, ks)[0]):
                     return "D-len: start <= end <= len"
             return None
         if name.endswith("::split_at") or name.endswith("::split_at_mut"):
